@@ -169,6 +169,15 @@ class Ctx:
                 res["theorems"].append({"name": n, "axioms": None, "ok": False})
         res["obligations"] = len(thms)
         res["discharged"] = sum(1 for t in res["theorems"] if t["ok"]) if not forbidden else 0
+        # thorough tier: the compiled property modules are re-checked by the toolchain's independent kernel checker
+        res["leanchecker"] = None
+        if ok and self.tier == "thorough":
+            bad = []
+            for m in prop_modules:
+                rc, out, err = run(["lake", "env", "leanchecker", m], cwd=LEAN, timeout=1800)
+                if rc != 0:
+                    bad.append(f"{m}: {(out + err)[-300:]}")
+            res["leanchecker"] = bad
         self.proof = res
         return res
 
@@ -188,6 +197,8 @@ class Ctx:
             for t in p["theorems"]:
                 if not t["ok"]:
                     fs.append(Failure("proof", "axioms:" + t["name"], f"theorem {t['name']} not accepted / axioms {t['axioms']}"))
+            for b in p.get("leanchecker") or []:
+                fs.append(Failure("proof", "leanchecker", f"leanchecker rejects a compiled property module: {b}"))
         return fs
 
     # ------------------------------------------------------------------ runners
@@ -349,6 +360,8 @@ def write_evidence(ctx, coverage, assumptions, level, nviol):
         cov["theorems"] = [
             {"name": t["name"], "axioms": t["axioms"], "accepted": t["ok"]} for t in p.get("theorems", [])
         ]
+        if p.get("leanchecker") is not None:
+            cov["leanchecker"] = "all property modules re-checked by leanchecker" if not p["leanchecker"] else p["leanchecker"]
     if ctx.notes:
         cov["notes"] = ctx.notes
     ev = {
